@@ -511,6 +511,102 @@ Arguments lstep_v0 {S}.
 Arguments lrun {S}.
 Arguments lrun_v0 {S}.
 
+(** ---- the accept loop of [start_at] with its channel (signal/src/lib.rs l.165-243) -----------------------
+    What decides whether anybody listens at the path: the loop's position ([LAccept]: in the
+    [select!] over [listener.accept()] and [receiver.recv()]; [LPause]: the listener is dropped, the
+    loop sleeps its 100 ms; [LStopped]: [break 'outer] / [return]), the messages in the unbounded
+    channel in the order in which they were sent ([true] = close: a handler's [sender.send(true)], the
+    shutdown watcher's [close_ctl.send(true)]; [false] = the file watcher's [reload_sender.send(false)])
+    and whether the socket file exists.
+
+    Events: [FRemove] -- the socket file is removed (a tmp cleaner, [Manager::shutdown]);
+    [FWatch] -- the watcher's callback has slept its 100 ms and looks: [if metadata(path).is_err()
+    { send(false) }]; [FClose] -- somebody sends [true]; [FLoop] -- the loop takes its next step:
+    in [LAccept] it receives one message ([true]: [break 'outer]; [false]: [drop(listener)], pause),
+    in [LPause] the sleep is over, the channel is emptied
+    ([while let Ok(close) = receiver.try_recv() { if close { break 'outer } }]) and, unless that
+    loop broke out, the path is bound again ([continue 'outer]; [Err(_) => return] when the path
+    exists).  [brk] is the test of the emptying loop: the code has [if close], i.e. [brk = id]. *)
+Inductive loop_pc := LAccept | LPause | LStopped.
+Record loop_state := { lp_pc : loop_pc; lp_chan : list bool; lp_file : bool }.
+Definition loop_init : loop_state := {| lp_pc := LAccept; lp_chan := []; lp_file := true |}.
+Inductive loop_event := FRemove | FWatch | FClose | FLoop.
+
+(** the emptying loop: [Some rest] -- it broke out ([rest] is never looked at again); [None] -- the
+    channel is empty *)
+Fixpoint drain (brk : bool -> bool) (ch : list bool) : option (list bool) :=
+  match ch with
+  | [] => None
+  | c :: r => if brk c then Some r else drain brk r
+  end.
+
+Definition loop_step_gen (brk : bool -> bool) (st : loop_state) (ev : loop_event) : loop_state :=
+  match ev with
+  | FRemove => {| lp_pc := lp_pc st; lp_chan := lp_chan st; lp_file := false |}
+  | FWatch => if lp_file st then st
+              else {| lp_pc := lp_pc st; lp_chan := lp_chan st ++ [false]; lp_file := lp_file st |}
+  | FClose => {| lp_pc := lp_pc st; lp_chan := lp_chan st ++ [true]; lp_file := lp_file st |}
+  | FLoop =>
+      match lp_pc st with
+      | LStopped => st
+      | LAccept =>
+          match lp_chan st with
+          | [] => st
+          | true :: r => {| lp_pc := LStopped; lp_chan := r; lp_file := lp_file st |}
+          | false :: r => {| lp_pc := LPause; lp_chan := r; lp_file := lp_file st |}
+          end
+      | LPause =>
+          match drain brk (lp_chan st) with
+          | Some r => {| lp_pc := LStopped; lp_chan := r; lp_file := lp_file st |}
+          | None =>
+              if lp_file st
+              then {| lp_pc := LStopped; lp_chan := []; lp_file := true |}   (* bind: address in use; [return] *)
+              else {| lp_pc := LAccept; lp_chan := []; lp_file := true |}    (* bound again *)
+          end
+      end
+  end.
+Definition loop_step := loop_step_gen (fun c => c).
+Definition loop_run (st : loop_state) (evs : list loop_event) : loop_state := fold_left loop_step evs st.
+(** NOT the code: the emptying loop with its test negated (a close that arrives during the pause
+    is thrown away).  Only used to show that the theorems about [loop_step] depend on that test. *)
+Definition loop_step_neg := loop_step_gen negb.
+
+(** a client can connect: the loop is accepting and the file is there *)
+Definition connectable (st : loop_state) : bool :=
+  match lp_pc st with LAccept => lp_file st | _ => false end.
+(** a close has been sent (and not yet received) or the loop has stopped *)
+Definition close_pending (st : loop_state) : bool :=
+  match lp_pc st with LStopped => true | _ => existsb (fun c => c) (lp_chan st) end.
+(** what the coarse model ([listener], below [lstep]) sees of it: [Closed] from the moment the
+    close is SENT (the harness waits until the loop has received it before it goes on) *)
+Definition loop_listener (st : loop_state) : listener :=
+  if close_pending st then Closed
+  else match lp_pc st with
+       | LAccept => if lp_file st then Listening else Unlinked
+       | _ => Unlinked
+       end.
+(** reachable states satisfy: a [false] in the channel means the file is gone (the watcher looked),
+    and during the pause the file is gone (nobody but the loop creates it) *)
+Definition loop_inv (st : loop_state) : Prop :=
+  (In false (lp_chan st) -> lp_file st = false) /\ (lp_pc st = LPause -> lp_file st = false).
+
+(** the coarse transition system instantiated so that environment event 0 is "somebody closes" *)
+Definition coarse_step : lts_state unit -> event -> lts_state unit :=
+  lstep [] (fun _ _ => false) (fun _ s => (s, true)) (fun s => s).
+Definition coarse_of (st : loop_state) : lts_state unit :=
+  {| l_listener := loop_listener st; l_env := tt; l_conns := [] |}.
+(** the coarse events that one step of the loop amounts to *)
+Definition coarse_events (st : loop_state) (ev : loop_event) : list event :=
+  match ev with
+  | FRemove => [EUnlink]
+  | FWatch => []
+  | FClose => [EEnv 0]
+  | FLoop => match lp_pc st with
+             | LPause => if close_pending st then [] else [ERelisten]
+             | _ => []
+             end
+  end.
+
 (** kvarnctl's reading of a reply ([request] in ctl/src/main.rs): the first token decides between
     success and error, the remaining tokens are printed joined by one space. *)
 Definition client_reply_tokens (reply : bytes) : option (list str) :=
@@ -664,7 +760,9 @@ Inductive cop :=
 | OSleep                        (* the client takes its time *)
 | OExhaust (k : N)              (* no free file descriptor in the process: accept() fails; connect k *)
 | ORestore                      (* descriptors are available again *)
-| OFinished (k : N).            (* has Manager::wait resolved? *)
+| OFinished (k : N)             (* has Manager::wait resolved? *)
+| OUnlinkNow                    (* remove the socket file and go on at once *)
+| ORelistened (k : N).          (* wait for the re-listen that follows a removal: is a listener bound again? *)
 
 Definition d_cop (x : xval) : option cop :=
   match x with
@@ -683,6 +781,8 @@ Definition d_cop (x : xval) : option cop :=
   | XL [XN 12; XN k] => Some (OExhaust k)
   | XL [XN 13; XN _] => Some ORestore
   | XL [XN 14; XN k] => Some (OFinished k)
+  | XL [XN 15; XN _] => Some OUnlinkNow
+  | XL [XN 16; XN k] => Some (ORelistened k)
   | _ => None
   end.
 
@@ -696,6 +796,11 @@ Definition cop_events (o : cop) : list event :=
   | ORelease => [EEnv 1]
   | OReq k b | OSend k b => [EConnect k; ESend k b; EFin k]
   | OUnlink _ => [EUnlink; ERelisten]
+  (* the two halves of [OUnlink] as steps of their own: whatever the script does in between (requests
+     on connections that are already open, closing commands, a shutdown) happens while nobody is bound
+     to the path *)
+  | OUnlinkNow => [EUnlink]
+  | ORelistened _ => [ERelisten]
   | OExhaust k => [EAcceptErr; EConnect k]
   | OAwait _ | OPeek _ | OSleep | ORestore | OFinished _ => []
   end.
@@ -735,7 +840,7 @@ Definition cop_output (st : lts_state fx_state) (o : cop) : option xval :=
   | OAwait k | OReq k _ => Some (XL [XN k; x_phase 3 (conn_get k (l_conns st))])
   | OPeek k => Some (XL [XN k; x_phase 4 (conn_get k (l_conns st))])
   (* 6: a listener is bound to the path again; 7: nobody listens *)
-  | OUnlink k => Some (XL [XN k; XL [XN (match l_listener st with Listening => 6 | _ => 7 end)]])
+  | OUnlink k | ORelistened k => Some (XL [XN k; XL [XN (match l_listener st with Listening => 6 | _ => 7 end)]])
   (* 8: the shutdown has finished; 9: it has not *)
   | OFinished k => Some (XL [XN k; XL [XN (if fx_finished (l_env st) then 8 else 9)]])
   | _ => None
